@@ -950,6 +950,8 @@ def seed_fallthrough_events(ctx, rule="EXH-seed-fallthrough"):
                 k = n.args[1]
                 for y in (k.elts if isinstance(k, (ast.Tuple, ast.List)) else [k]):
                     isinst.add(ast.unparse(y).rsplit(".", 1)[-1])
+            if isinstance(n, ast.MatchClass):   # `case ClosedJaxpr():` is the same test
+                isinst.add(ast.unparse(n.cls).rsplit(".", 1)[-1])
     kinds_ok = library or {"ClosedJaxpr", "Jaxpr"} <= isinst
     mentions = {f for f in helpers if {"sample_p", "adev_sample_p"} <= {n.id for n in ast.walk(mod_funcs[f]) if isinstance(n, ast.Name)}}
     recursive = any(f in reach(f) for f in mentions) or (library and any(n.endswith("subjaxprs") for n in names))
